@@ -1,6 +1,20 @@
-"""C06: aperture keeps a partitioned, bounded, load-tracking active subset -- not claimed."""
-CLAIMED = False
-NA_REASON = ('Not claimed. In place: the hook contracts of _OnGet/_OnPut/_OnNodeDown were weakened to what an aperture adjustment can do and C03/C04 re-proved under them; _AddSink/_RemoveSink carry membership-delta postconditions. '
-             'Missing: contracts and proofs for the aperture\'s own functions (_AddSink/_RemoveSink overrides, _TryExpandAperture, _ContractAperture, _AdjustAperture with its moving average over a clock, the three hook overrides, _Jitter) '
-             'against the partition invariant and the bound clauses. The convergence sentence ("the per-member load settles inside the band or the size is pinned") is a limit statement over traffic histories '
-             'that no pre/postcondition or invariant expresses; contract-based deductive verification does not apply to it. See DESIGN.md 9.6.')
+"""C06: aperture keeps a partitioned, bounded, load-tracking active subset."""
+CLAIMED = True
+UNITS = []
+MIN_OBLIGATIONS = 3000
+DESIGN_REF = 'DESIGN.md section 9.6 (C06)'
+TECHNIQUE = ('deductive verification: partition invariant between the heap (active) and the idle set with a ghost endpoint->node map, bound and direction postconditions on the adjustment, '
+             'hook overrides against the balancer\'s behavioural hook contract, inherited dispatch functions re-verified under the aperture invariant (contract aspect); z3 + cvc5')
+LEVEL_TEXT = ('Partition: the invariant "no endpoint is both idle and active, no endpoint has two nodes, every key of the server table is idle or has its node in the heap, and every idle or active endpoint is a key of the server table" '
+              'is verified to be preserved by ApertureBalancerSink._AddSink, _RemoveSink, _TryExpandAperture, _ContractAperture, _AdjustAperture, _OnNodeDown/_OnGet/_OnPut, by the inherited dispatch functions '
+              '__Get/__Put/_AsyncProcessRequestImpl/its release closure (verified once more with the aperture invariant in their pre- and postconditions) and by the base-class join/leave/open handlers with self typed as the aperture balancer. '
+              'Bounds: a contraction removes at most one member and only when more than min_size members are active (so never below min_size); load-driven growth adds at most one member and only below max_size. '
+              'Direction: _AdjustAperture grows exactly when the smoothed load per active member is >= max_load, an idle member exists and the size is below max_size; it shrinks only when that load is <= min_load (and the growth condition is false). '
+              'The three hook overrides satisfy the hook contract under which C03/C04 are proved (same clause list), so those results hold for the aperture balancer too.')
+LEVEL_NOTE = ('NOT covered: the convergence sentence ("the per-member load settles inside the band or the size is pinned") -- a limit statement over traffic histories that no contract expresses; the value of the moving average (Ema.Update is an unconstrained real); '
+              '_Jitter/_ScheduleNextJitter (timer-driven expand-then-contract: built from the two verified operations, not itself under contract); that __init__ establishes the invariant; the pending-endpoint guard beyond "pending and not forced => no contraction". '
+              'Trusted: pyvc encoding (reals for floats), z3/cvc5, random.choice as an arbitrary element, _OpenNode/_OpenInitialChannels (start opens only), AsyncResult.ContinueWith registers a callback that runs later.')
+ASSUMPTIONS = ['endpoints are truthy objects (the contraction scan tests "if not least_loaded_endpoint")', 'the constructed balancer satisfies the invariant (empty heap, empty idle set)',
+               'notifications are delivered serially; no dispatch during the initial load']
+TRUSTED = ['HeapBalancerSink._OpenNode', 'HeapBalancerSink._OpenInitialChannels']
+BOUNDED = []
